@@ -404,6 +404,94 @@ def _cheatpipe_failures():
         shutil.rmtree(work, ignore_errors=True)
     return fails, n
 
+
+def _contend_failures():
+    """Bounded: two builders and one target, on the real binaries.  History 1: `redo -j2 a b` (a takes 1.2 s, b 2.4 s);
+    while both run a second process runs `redo a`; after a has finished a third runs `redo b`.  No two executions of one
+    script may overlap in time (C06), under every one of these contentions.  History 2: t.do = `redo-ifchange src; cat src`;
+    two overlapping `redo t`; then src is edited and `redo-ifchange t` must run t.do and make t follow src (C01 C02 C11: the
+    record used after a lock wait is the one read under the lock).  -> (failures, n) or None"""
+    import time
+    bindir = build_redo_bin()
+    if not bindir:
+        return None
+    env = {k: v for k, v in os.environ.items() if not k.startswith('REDO') and k != 'MAKEFLAGS'}
+    env['PATH'] = bindir + ':' + env.get('PATH', '')
+    work = tempfile.mkdtemp(prefix='redo-verif-contend.', dir='/var/tmp')
+    fails = []
+
+    def intervals(trace):
+        ev = [l.split() for l in open(trace).read().split('\n') if l.strip()]
+        runs, open_ = {}, {}
+        for kind, name, pid, ts in ev:
+            if kind == 'start':
+                open_[(name, pid)] = float(ts)
+            else:
+                runs.setdefault(name, []).append((open_.pop((name, pid), 0.0), float(ts)))
+        for (name, pid), t0 in open_.items():
+            runs.setdefault(name, []).append((t0, float('inf')))
+        return runs
+    try:
+        # ---- history 1: mutual exclusion while another job of the same process finishes
+        proj = os.path.join(work, 'h1')
+        os.makedirs(proj)
+        script = 'echo "start $1 $$ $(date +%%s.%%N)" >>"%s/trace"\nsleep %s\necho "end $1 $$ $(date +%%s.%%N)" >>"%s/trace"\necho done\n'
+        open(os.path.join(proj, 'a.do'), 'w').write(script % (proj, '1.2', proj))
+        open(os.path.join(proj, 'b.do'), 'w').write(script % (proj, '2.4', proj))
+        p1 = subprocess.Popen(['redo', '-j2', 'a', 'b'], cwd=proj, env=env, stdout=subprocess.DEVNULL, stderr=subprocess.DEVNULL)
+        t0 = time.time()
+        while time.time() - t0 < 10:
+            tr = os.path.join(proj, 'trace')
+            if os.path.exists(tr) and open(tr).read().count('start') >= 2:
+                break
+            time.sleep(0.05)
+        time.sleep(0.4)   # both scripts are running: somebody else asks for a
+        p3 = subprocess.Popen(['redo', 'a'], cwd=proj, env=env, stdout=subprocess.DEVNULL, stderr=subprocess.DEVNULL)
+        time.sleep(1.2)   # a has finished (its Lock was dropped), b is still running: somebody else asks for b
+        p2 = subprocess.Popen(['redo', 'b'], cwd=proj, env=env, stdout=subprocess.DEVNULL, stderr=subprocess.DEVNULL)
+        for pr in (p1, p2, p3):
+            try:
+                pr.wait(timeout=30)
+            except subprocess.TimeoutExpired:
+                pr.kill()
+        runs = intervals(os.path.join(proj, 'trace'))
+        for name, iv in runs.items():
+            iv.sort()
+            for k in range(1, len(iv)):
+                if iv[k][0] < iv[k - 1][1]:
+                    fails.append(dict(input='redo -j2 a b (a takes 1.2 s, b 2.4 s); while both run: redo a; after a has finished and while b runs: redo b',
+                                      observed='%s.do ran twice at the same time: %s' % (name, iv), prop='C06',
+                                      clause='at most one execution of a target\'s script at a time: the lock is held until the result is recorded'))
+        # ---- history 2: the record used after a lock wait
+        proj = os.path.join(work, 'h2')
+        os.makedirs(proj)
+        open(os.path.join(proj, 'src'), 'w').write('one\n')
+        open(os.path.join(proj, 't.do'), 'w').write('redo-ifchange src\necho ran >>"%s/ran"\n[ -e "%s/slow" ] && sleep 1.5\ncat src\n' % (proj, proj))
+        subprocess.run(['redo', 't'], cwd=proj, env=env, capture_output=True, timeout=60)
+        open(os.path.join(proj, 'slow'), 'w').write('')
+        before = open(os.path.join(proj, 'ran')).read().count('ran')
+        q1 = subprocess.Popen(['redo', 't'], cwd=proj, env=env, stdout=subprocess.DEVNULL, stderr=subprocess.DEVNULL)
+        t0 = time.time()
+        while time.time() - t0 < 10 and open(os.path.join(proj, 'ran')).read().count('ran') == before:
+            time.sleep(0.05)
+        q2 = subprocess.Popen(['redo', 't'], cwd=proj, env=env, stdout=subprocess.DEVNULL, stderr=subprocess.DEVNULL)
+        for pr in (q1, q2):
+            try:
+                pr.wait(timeout=30)
+            except subprocess.TimeoutExpired:
+                pr.kill()
+        os.unlink(os.path.join(proj, 'slow'))
+        open(os.path.join(proj, 'src'), 'w').write('two, longer\n')
+        r = subprocess.run(['redo-ifchange', 't'], cwd=proj, env=env, capture_output=True, text=True, timeout=60)
+        got = open(os.path.join(proj, 't')).read() if os.path.exists(os.path.join(proj, 't')) else None
+        if r.returncode != 0 or got != 'two, longer\n':
+            fails.append(dict(input='t.do = redo-ifchange src; cat src.  redo t; two overlapping `redo t`; edit src; redo-ifchange t',
+                              observed='exit %d, t = %r, stderr: %s' % (r.returncode, got, r.stderr.strip()[-160:]), prop='C02',
+                              clause='after waiting for another builder the target is judged and built on the record read under the lock: it keeps following its dependencies'))
+    finally:
+        shutil.rmtree(work, ignore_errors=True)
+    return fails, 2
+
 # ---------------------------------------------------------------- interface used by run.py
 def search(prop, violations, tier, seed):
     """attach a concrete failing input to a reported violation, if a probe covers its function"""
@@ -464,6 +552,14 @@ def conformance(prop, unit_names, pins_changed, labels_props):
                 out.append(dict(oid='tokens/%s/%s' % (fn_, label), msg='contract clause fails on the real code for a concrete input (probe tokens-steps)',
                                 where=REPO + '/src/jobserver.rs:' + fn_, site=None, text=hits[0]['clause'], rendered=json.dumps(hits[:6], indent=1),
                                 inputs=[h['input'] for h in hits], fn=fn_, label=label, props=props))
+    if ('sched' in unit_names or 'locks' in unit_names) and prop in ('C06', 'C07', 'C01', 'C02', 'C11'):
+        r = _contend_failures()
+        for h in (r[0] if r else []):
+            if (h['prop'] == 'C06') == (prop in ('C06', 'C07')):
+                out.append(dict(oid='sched/run_body/' + ('run.start_holds_kernel_lock' if h['prop'] == 'C06' else 'run.record_read_under_lock'),
+                                msg='clause fails on the real binaries for a concrete history (bounded probe contend)', where=REPO + '/src/builder.rs:run', site=None,
+                                text=h['clause'], rendered=json.dumps(h, indent=1), inputs=[h['input']], fn='run_body',
+                                label='run.start_holds_kernel_lock' if h['prop'] == 'C06' else 'run.record_read_under_lock', props=[prop]))
     if 'tokens' in unit_names and prop == 'C08':
         r = _cheatpipe_failures()
         if r and r[0]:
